@@ -638,6 +638,11 @@ def _c14_sample(api, run, state):
         elig = all(run.finished(r) is not None for r in n.reqs) and run.started(n.parent) is not None
         if not elig and not idle:
             fail(api, "C14: %s is not idle although a requirement has not finished" % n, run)
+        tc = run.first(n.name, "tcancel")
+        if tc is not None and fin is not None and fin.seq > tc.seq:
+            # told to stop while it was running, and yet it "finished" at a strictly later time: a cancelled job
+            # is never reported done (finishing by itself in the very instant of the cancellation is a tie)
+            prove(api, snot(fin.t > tc.t), "C14: %s was cancelled while running and is reported done later on" % n, run)
         if fin is not None:
             api.note("nt")
             if fin.kind in ("end", "run_end"):
